@@ -148,30 +148,54 @@ def pratt_corpus(tier):
 
 def oc_family(tier):
     """Ordered-choice micro-grammars enumerated by shape: first alternative (consumes, may fail late) x
-    last alternative (incl. nullable ones) x context (sibling rule after, tokens around, loop, start
-    rule, elided rule), all with a skipped token.  lelwel itself filters the accepted ones."""
-    import random
+    last alternative (incl. nullable ones) x context (sibling rule after, tokens around, tokens before
+    the choice inside the rule, loop, start rule, elided rule, creation around), all with a skipped
+    token.  lelwel itself filters the accepted ones.  quick: every (first, last) pair once with the
+    contexts rotating (pairwise coverage); thorough: the full product."""
     firsts = ["A B", "A B C", "t B", "A u", "A (B | C) D", "A [B] C", "A B* C", "<1 A B 1>x C", "A @n B",
-              "A ^ B", "A ~ B C", "A B ~ C", "A !1 B"]
-    lasts = ["A C", "[C]", "A*", "A", "t C", "C", "A [C]", "()"]
+              "A ^ B", "A ~ B C", "A B ~ C", "A !1 B", "(A | C) B* D", "A B+ C"]
+    lasts = ["A C", "[C]", "A*", "A", "t C", "C", "A [C]", "()", "C D"]
     ctxs = [("sib", "s: r t2;\nr: %s;\nt2: A D;\n"), ("mid", "s: P r Q;\nr: %s;\n"),
-            ("loop", "s: (r)* D;\nr: %s;\n"), ("start", "s: %s;\n"), ("elided", "s: r+ D;\nr^: %s;\n"),
-            ("create", "s: P <1 r 1>y Q;\nr: %s;\n")]
+            ("pre", "s: r Q;\nr: P (%s);\n"), ("loop", "s: (r)* D;\nr: %s;\n"), ("start", "s: %s;\n"),
+            ("elided", "s: r+ D;\nr^: %s;\n"), ("create", "s: P <1 r 1>y Q;\nr: %s;\n"),
+            ("prepost", "s: r Q;\nr: P (%s) Q;\n")]
     out = []
     for i, f in enumerate(firsts):
         for j, l in enumerate(lasts):
-            for cn, ct in ctxs:
+            for c, (cn, ct) in enumerate(ctxs):
+                if tier == "quick" and c != (i * 3 + j) % len(ctxs):
+                    continue
                 body = "%s / %s" % (f, l)
-                rules = ct % body
-                text = "token A B C D P Q W;\nskip W;\nstart s;\n" + rules
-                if " t " in " " + body + " " or body.startswith("t "):
+                text = "token A B C D P Q W;\nskip W;\nstart s;\n" + (ct % body)
+                if " t " in " " + body + " ":
                     text += "t: A;\n"
-                if " u" in body:
+                if " u " in " " + body + " ":
                     text += "u: B C;\n"
                 out.append(("oc_%d_%d_%s" % (i, j, cn), text))
-    rng = random.Random(seed())
-    rng.shuffle(out)
-    return out[: (36 if tier == "quick" else 400)]
+    return out
+
+
+def nodeop_family(tier):
+    """Node operators (rename, elision, markers/creations, whole-rule creation) inside every kind of
+    EBNF construct, in ordinary and elided rules, used once and inside a loop."""
+    cons = []
+    for op in ("^", "@n"):
+        cons += ["(B %s)*" % op, "[B %s]" % op, "(B %s)+" % op, "(B %s | C)" % op, "(B | C %s)" % op,
+                 "(B %s C)*" % op, "[B %s] [C]" % op, "(B [C %s])*" % op, "B %s" % op, "(%s B)*" % op]
+    cons += ["<1 B 1>x", "<1 B [C 1>x]", "<1 B (C 1>x)*", "(<1 B 1>x)*", "<1 B 1>x C 1>y", "<1 <2 B 2>x C 1>y",
+             "[<1 B 1>x]", "<1 (B | C 1>x)", "B >w", "[B >w]", "(B >w)*", "B >w C >v", "<1 B >w C 1>x"]
+    out = []
+    k = 0
+    for c in cons:
+        for elided in (False, True):
+            for ctx in ("s: r D;", "s: r* D;"):
+                if tier == "quick" and (k % 2 == 1):
+                    k += 1
+                    continue
+                k += 1
+                text = "token A B C D W;\nskip W;\nstart s;\n%s\nr%s: A %s;\n" % (ctx, "^" if elided else "", c)
+                out.append(("no_%d" % k, text))
+    return out
 
 
 KEEP_EV = {
@@ -320,6 +344,8 @@ def judge(prop, tier):
         files = files + pratt_corpus(tier)
     if prop in ("C01", "C02", "C03", "C04", "C08", "C16"):
         files = files + oc_family(tier)
+    if prop in ("C01", "C02", "C03", "C05", "C16"):
+        files = files + nodeop_family(tier)
     built = build_all(files)
     cap = 1600 if tier == "quick" else 30000
     if prop == "C07":
@@ -342,7 +368,7 @@ def judge(prop, tier):
         else:
             recs = [{"o": lean_outcome(o, prop)} for o in outs]
         # binding self-test: a corrupted copy of a recorded outcome must be rejected by TLC
-        st = corrupt_record(recs, prop)
+        st = None if (prop == "C04" and b.feat["oc"]) else corrupt_record(recs, prop)
         nreal = len(recs)
         if st is not None:
             recs = recs + [st]
@@ -470,7 +496,7 @@ def judge(prop, tier):
     if prop in ("C01", "C03", "C08"):
         # machine specification run on the same points: drift report + model-level invariants
         # quick: the corpus and a third of the enumerated families; thorough: everything
-        msel = sel if tier == "thorough" else [b for k, b in enumerate(sel) if not b.name.startswith("oc_") or k % 3 == 0]
+        msel = sel if tier == "thorough" else [b for k, b in enumerate(sel) if not b.name.startswith(("oc_", "no_")) or k % 4 == 0]
         t_m = time.time()
         mach, _ = machine_stage(msel, cap)
         log("machine conformance over %d grammars in %.0fs" % (len(msel), time.time() - t_m))
